@@ -587,7 +587,12 @@ func (p *c03) execUniform(c c03Case) core.Obs {
 		`<i v-if="zz" data-m="x"></i><i v-else-if="!%[1]s" data-m="nelif"></i>`+
 		`<i v-show="!%[1]s" data-m="nshow"></i>`+
 		`<i :data-on="!%[1]s" data-m="nattr"></i>`+
-		`<i :class="{on: !%[1]s}" data-m="ncls"></i>`, e)
+		`<i :class="{on: !%[1]s}" data-m="ncls"></i>`+
+		`<i v-if="!!%[1]s" data-m="nnif"></i>`+
+		`<i v-if="zz" data-m="x"></i><i v-else-if="!!%[1]s" data-m="nnelif"></i>`+
+		`<i v-show="!!%[1]s" data-m="nnshow"></i>`+
+		`<i :data-on="!!%[1]s" data-m="nnattr"></i>`+
+		`<i :class="{on: !!%[1]s}" data-m="nncls"></i>`, e)
 	if c.Path == "shadow" {
 		tpl = `<template v-for="v in vs">` + tpl + `</template>`
 	}
@@ -644,6 +649,19 @@ func (p *c03) execUniform(c c03Case) core.Obs {
 	if n, ok := has("ncls"); ok {
 		cv, _ := n.Attr("class")
 		obs["!:class-object"] = !strings.Contains(" "+cv+" ", " on ")
+	}
+	// an even number of negations reads the value's truthiness itself
+	_, obs["!!v-if"] = has("nnif")
+	_, obs["!!v-else-if"] = has("nnelif")
+	if h, ok := hidden("nnshow"); ok {
+		obs["!!v-show"] = !h
+	}
+	if n, ok := has("nnattr"); ok {
+		_, obs["!!:attr"] = n.Attr("data-on")
+	}
+	if n, ok := has("nncls"); ok {
+		cv, _ := n.Attr("class")
+		obs["!!:class-object"] = strings.Contains(" "+cv+" ", " on ")
 	}
 	want, decided := v.Truthy()
 	if !decided {
